@@ -60,6 +60,8 @@ def masked_events():
         D("Q", ["A01", "B01", "C02"], {"$ma": [[30, 7.5, 70], [False, True, False]]}),
         D("Q", ["A02"], {"$ma": [[30], [True]]}),
         T("P", ["A01", "B01"], "Q", ["A01", "B02"], {"$ma": [[30, 7.5], [False, True]]}),
+        R("T", 0, "Q", ["C01", "C02"], {"$npf": 7.5}),
+        R("T", 1, "P", ["A01"], {"$nps": ["float32", 2.5]}),
     ]
 
 
